@@ -57,8 +57,9 @@ def skeletons():
 class Builder:
     """Builds the plain and the commented variant of a skeleton in lockstep."""
 
-    def __init__(self, rng, density):
+    def __init__(self, rng, density, textfn=None):
         self.rng = rng
+        self.textfn = textfn or text
         self.density = density
         self.n = 0
         self.attached = []
@@ -71,12 +72,12 @@ class Builder:
         r = self.rng.random()
         v = plain
         if r < self.density:
-            t = text(self.rng)
+            t = self.textfn(self.rng)
             if t:
                 self.attached.append(t)
                 v = P.comment(v, t)
         if container and self.rng.random() < self.density * 0.7:
-            t = text(self.rng)
+            t = self.textfn(self.rng)
             if t:
                 self.attached.append(t)
                 v = P.trailing_comment(v, t)
@@ -124,6 +125,28 @@ class Builder:
         return p, self.annotate(c, container)
 
 
+ASCII_WORDS = ['w', '#', "'", '"', '(', ']', ',', 'a,b', '\\', 'word', '{x}', '#!', "it's", 'a-much-longer-word-than-the-others',
+               '%s', '...and', 'more', 'elements', 'x' * 45]
+ASCII_SEPS = [' ', ' ', '  ', '\t', '\n', '\n\n', ' \n ', ' \t ']
+
+
+def ascii_text(rng):
+    """comment texts inside the domain of Printers!CommentDoc (printable ASCII, tab, newline)"""
+    if rng.random() < 0.06:
+        return rng.choice(['\n', ' ', '\n\n', '\t', ' \n', 'w\n'])
+    parts = []
+    for i in range(rng.choice([1, 1, 2, 3, 5, 9])):
+        if i:
+            parts.append(rng.choice(ASCII_SEPS))
+        parts.append(rng.choice(ASCII_WORDS))
+    t = ''.join(parts)
+    if rng.random() < 0.2:
+        t = rng.choice([' ', '\n', '  ', '\t']) + t
+    if rng.random() < 0.2:
+        t = t + rng.choice([' ', '\n', '\t ', '\n\n'])
+    return t
+
+
 def words_of_text(t):
     return t.split()
 
@@ -131,6 +154,7 @@ def words_of_text(t):
 def check_c09(chk, args):
     q = chk.tier == 'quick'
     rng = chk.rng
+    bound = []
     cases = []
     meta = {}
     nprints = 0
@@ -146,6 +170,8 @@ def check_c09(chk, args):
                 continue
             if not b.attached:
                 continue
+            if len(bound) < (700 if q else 8000):
+                bound.append(commented)
             for w in ([1, 10, 40, 79] if q else [1, 5, 10, 20, 40, 79]):
                 cfg = {'width': w, 'ribbon_width': rng.choice([w, max(1, w // 2), 200]), 'indent': rng.choice([2, 4])}
                 nprints += 1
@@ -209,6 +235,20 @@ def check_c09(chk, args):
             why = 'syntax tree differs from the uncommented print' if c['obs'] != c['val'] else \
                 'comment words are not an order-preserving merge of the attached comments'
             chk.violation('C09.inert' if c['obs'] != c['val'] else 'C09.preserved', '%s: %r' % (why, d), d)
+    # spec -> code: the concrete pipeline model (Printers.tla: commentdoc, the comment placement of
+    # sequence_of_docs / pretty_dict / build_fncall / python_to_sdocs) predicts the exact text (DRIFT only)
+    from checks import values_checks as VC
+    VC.CALL_TYPES[G] = lambda v: ('%s.%s' % (G.__module__, G.__qualname__), v.a, list(v.k.items()))
+    for rep in range(40 if q else 500):
+        for sk in skeletons():
+            b = Builder(rng, rng.choice([0.3, 0.6, 1.0]), textfn=ascii_text)
+            try:
+                plain, commented = b.build(sk)
+            except ValueError:
+                continue
+            if b.attached:
+                bound.append(commented)
+    VC.printers_binding(chk, bound, name='comments', per_value=2 if q else 3)
     chk.cov['evaluations'] = nprints * 2
     chk.cov['traces_validated_against_impl'] = len(cases)
     chk.cov['rule'] = ('value skeletons with <= 3 container nodes (lists, tuples incl. one-element, sets, frozensets, dicts '
